@@ -368,8 +368,14 @@ def codec_part(ctx: vlib.Ctx, extra=None):
         vecs = option_vectors(ctx, extra)
         shapes = ["Plain", "Nested", "Mixin", "Flagged", "FlaggedMixin"]
         nvals = ctx.budget(1, 3)
-        for opts in vecs:
-            for shape in shapes:
+        for vi, opts in enumerate(vecs):
+            # quick tier: three of the five shapes per option vector, rotating so that every shape (and always one
+            # shape with keyword-flag options) meets every second vector; thorough: all shapes
+            use = shapes if not ctx.quick() else [shapes[vi % 3], shapes[(vi + 1) % 3], shapes[3 + vi % 2]]
+            if vi % 8 == 7:
+                from harness.props import c13_fam
+                c13_fam.release_builders()      # the library's unbounded memo keeps every CodeBuilder alive
+            for shape in use:
                 for _ in range(nvals):
                     expr = gen_value_expr(r, shape)
                     for fmt in FORMATS:
